@@ -105,6 +105,11 @@ def gen_c24_session(rng, cfg, unsupported=False):
         advertising = True
 
     choose_map()
+    if unsupported and rng.random() < 0.5:
+        # radio callbacks the real link layer never makes (nothing is scheduled yet): correspondence only
+        if not auto and rng.random() < 0.7:
+            ops.append(rng.choice(["start", "startn 3"]))
+        ops.extend(["timeout"] * rng.randrange(1, 4))
     if rng.random() < 0.5 and not auto:
         start()
         ops.append("llstart")
@@ -122,6 +127,8 @@ def gen_c24_session(rng, cfg, unsupported=False):
             # connection established, later lost (link layer calls handle_stop / handle_start)
             ops.append("llstop")
             advertising = False
+            if unsupported and rng.random() < 0.5:
+                ops.extend(["timeout"] * rng.randrange(1, 3))     # (never happens with the real link layer)
             if rng.random() < 0.6:
                 choose_map()
             ops.append("llstart")
@@ -252,7 +259,7 @@ def run_c24(ctx, replay_path=None):
     n = 3000 if ctx.thorough else 300
     for i in range(n):
         cfg = [1, 2, 4, 1, 2, 0, 3, 4][i % 8]
-        unsupported = (i % 10 == 9)
+        unsupported = (i % 5 == 4)
         sessions.append(gen_c24_session(ctx.rng, cfg, unsupported))
         monitored.append(not unsupported)
     enum = enum_map_sessions(4, 40) if ctx.thorough else enum_map_sessions(3, 12)
@@ -285,7 +292,7 @@ def run_c24(ctx, replay_path=None):
             res.failures.append({"key": "C24:crash:" + r["crash"].split(" @")[0], "what": r["crash"], "ops": ops[:len(outs) + 1]})
             continue
         if not mon:
-            res.count("sessions_unsupported_map_change_while_advertising")
+            res.count("sessions_outside_documented_use_correspondence_only")
             continue
         for key, what, k in monitor_c24(ops, outs):
             if key in seen_keys:
